@@ -76,6 +76,13 @@ Proof. intro H. now apply (ext_same a b). Qed.
 Lemma ext_new_class a b : ext a b -> ext a (new_class b).
 Proof. intro H. now apply (ext_same a b). Qed.
 
+Lemma ext_resolve a b w v : ext a b -> ext a (resolve b w v).
+Proof.
+  intro H. unfold resolve. destruct (retto (th b w)) as [c|]; [|exact H].
+  destruct (rreg (th b c)) as [| |t]; try exact H. destruct (t =? w); [|exact H].
+  apply ext_upd; [exact H|]. right. reflexivity.
+Qed.
+
 Section Dead.
   Context {T : Type}.
   Variable P : prims T.
@@ -88,6 +95,7 @@ Section Dead.
       [ assumption
       | apply ext_refl
       | apply ext_vm_suspend
+      | apply ext_resolve
       | apply ext_new_thread
       | apply ext_upd; [|first [left; reflexivity | right; reflexivity]]
       | apply ext_set_cur | apply ext_set_log | apply ext_set_etab | apply ext_set_depth
@@ -100,6 +108,7 @@ Section Dead.
     | |- Ex _ (Some (_, match ?v with _ => _ end)) => destruct v
     | |- Ex _ (Some (_, _)) => cbn [Ex]; ext_solve
     | |- Ex _ (go P _ _ _ (match ?v with _ => _ end)) => destruct v
+    | |- Ex _ (match go P _ _ _ (match ?v with _ => _ end) with _ => _ end) => destruct v
     | |- Ex ?s0 (go P ?f ?k ?x ?e) =>
         let Ha := fresh "Ha" in let Hb := fresh "Hb" in
         assert (Ha : ext s0 e) by ext_solve;
@@ -157,14 +166,20 @@ Section Dead.
         - eapply destroyed_stays_destroyed; eauto.
         - injection E2 as <- <-. split; [exact Hw1|]. split; [lia|exact D1]. }
       destruct H2 as (Hw2 & L2 & D2).
-      destruct (go P f (KDtor (LThr t)) x2 (remove_from_class s2 (grp (th s t)))) as [[x3 s3]|] eqn:E3; [|discriminate].
+      set (s2b := match vst (th s t) with
+                  | VIdling => resolve (remove_from_class s2 (grp (th s t))) t RNil
+                  | _ => remove_from_class s2 (grp (th s t))
+                  end) in *.
+      assert (H2b : ext s2 s2b).
+      { unfold s2b. destruct (vst (th s t)); try apply ext_resolve; apply ext_remove_from_class; apply ext_refl. }
+      destruct (H2b Hw2) as (Hw2' & L2b & D2b).
+      destruct (go P f (KDtor (LThr t)) x2 s2b) as [[x3 s3]|] eqn:E3; [|discriminate].
       injection H as <- <-.
-      assert (Hw2' : WF (remove_from_class s2 (grp (th s t)))) by exact Hw2.
+      assert (N1 : ntid s1 = ntid s) by reflexivity.
       destruct (destroyed_stays_destroyed _ _ _ _ _ _ t Hw2' E3) as (Hw3 & L3 & D3).
-      { cbn. assert (ntid s1 = ntid s) by reflexivity. lia. }
-      { exact D2. }
-      assert (L : ntid s <= ntid s3).
-      { assert (ntid s1 = ntid s) by reflexivity. cbn in L3. lia. }
+      { lia. }
+      { apply D2b; [lia|exact D2]. }
+      assert (L : ntid s <= ntid s3) by lia.
       destruct (opt_eqb (cur s3) t); [|auto]. split; [exact Hw3|]. split; [exact L | exact D3].
     - injection H as <- <-. split; [exact Hw|]. split; [lia|exact Ea].
   Qed.
@@ -260,6 +275,221 @@ Section Fuel.
     clear IHf. destruct k; cbn [go] in *; repeat fm_step IH.
   Qed.
 End Fuel.
+
+
+(* ---------------------------------------------------------------- waitthread: the result and the release of the caller *)
+Section WaitThread.
+  Context {T : Type}.
+  Variable P : prims T.
+
+  (* the pending result of thread w, held by its caller c, takes the value *)
+  Lemma resolve_delivers s w c v :
+    retto (th s w) = Some c -> rreg (th s c) = RPtr w -> rreg (th (resolve s w v) c) = v.
+  Proof.
+    intros H1 H2. unfold resolve. rewrite H1, H2, N.eqb_refl. rewrite th_upd, N.eqb_refl. reflexivity.
+  Qed.
+
+  (* ... and nothing else changes; without a caller that still holds it, nothing changes at all *)
+  Lemma resolve_other s w v t :
+    (forall c, retto (th s w) = Some c -> t <> c) -> th (resolve s w v) t = th s t.
+  Proof.
+    intro H. unfold resolve. destruct (retto (th s w)) as [c|] eqn:E; [|reflexivity].
+    destruct (rreg (th s c)) as [| |u]; try reflexivity. destruct (u =? w); [|reflexivity].
+    rewrite th_upd. destruct (N.eqb_spec t c) as [->|]; [|reflexivity]. exfalso. now apply (H c).
+  Qed.
+
+  (* `end v` (v = None: end without a value, or the end of the program): the caller's variable
+     takes the value (NIL without one) BEFORE the thread is deleted, i.e. before its destructor
+     releases the caller *)
+  Theorem end_delivers_the_result_then_deletes f w v x s :
+    go P (S f) (KEnd w v) x s =
+    go P f (KKill w) x (resolve s w (match v with Some z => RInt z | None => RNil end)).
+  Proof. reflexivity. Qed.
+
+  (* deleting a live thread t: its Listener destructor - the only task that releases the threads
+     registered on t, i.e. its waitthread caller - runs in a state in which t is destroyed, and,
+     when t's VM was idle (t was blocked: a killed callee), in which its pending result has been
+     resolved to NIL; a VM that is still executing resolves it when its Execute returns
+     ([go] of KVmExecute), before any released thread can run (due threads are resumed by the
+     outermost execution only) *)
+  Theorem delete_runs_the_destructor_on_a_destroyed_thread f t x s r :
+    WF s -> alive (th s t) = true -> go P (S f) (KKill t) x s = Some r ->
+    exists x2 s2 x3 s3,
+      let sd := match vst (th s t) with
+                | VIdling => resolve (remove_from_class s2 (grp (th s t))) t RNil
+                | _ => remove_from_class s2 (grp (th s t))
+                end in
+      WF sd /\ alive (th sd t) = false /\
+      go P f (KDtor (LThr t)) x2 sd = Some (x3, s3) /\
+      r = (x3, if opt_eqb (cur s3) t then set_cur s3 None else s3).
+  Proof.
+    intros Hw Ea H. cbn [go] in H. rewrite Ea in H.
+    assert (Ht : t < ntid s) by (now apply Hw).
+    set (s1 := upd s t (w_tst (w_alive (th s t) false) TRunning)) in *.
+    assert (H1 : ext s s1) by (apply ext_upd; [apply ext_refl | left; reflexivity]).
+    assert (D1 : alive (th s1 t) = false) by (unfold s1; rewrite th_upd, N.eqb_refl; reflexivity).
+    destruct (H1 Hw) as (Hw1 & L1 & _).
+    destruct (match tst (th s t) with
+              | TRunning => Some (x, s1)
+              | TWaiting => go P f (KCancelAll t) x s1
+              | TTiming => Some (p_tremove P t x, s1)
+              end) as [[x2 s2]|] eqn:E2; [|discriminate].
+    assert (H2 : WF s2 /\ ntid s1 <= ntid s2 /\ alive (th s2 t) = false).
+    { destruct (tst (th s t)).
+      - injection E2 as <- <-. split; [exact Hw1|]. split; [lia|exact D1].
+      - eapply (destroyed_stays_destroyed P); eauto.
+      - injection E2 as <- <-. split; [exact Hw1|]. split; [lia|exact D1]. }
+    destruct H2 as (Hw2 & L2 & D2).
+    set (sd := match vst (th s t) with
+               | VIdling => resolve (remove_from_class s2 (grp (th s t))) t RNil
+               | _ => remove_from_class s2 (grp (th s t))
+               end) in *.
+    assert (H2b : ext s2 sd).
+    { unfold sd. destruct (vst (th s t)); try apply ext_resolve; apply ext_remove_from_class; apply ext_refl. }
+    destruct (H2b Hw2) as (Hw2' & L2b & D2b).
+    destruct (go P f (KDtor (LThr t)) x2 sd) as [[x3 s3]|] eqn:E3; [|discriminate].
+    injection H as <-. exists x2, s2, x3, s3. cbn zeta. fold sd.
+    assert (N1 : ntid s1 = ntid s) by reflexivity.
+    split; [exact Hw2'|]. split; [apply D2b; [lia|exact D2]|]. split; [exact E3|reflexivity].
+  Qed.
+End WaitThread.
+
+
+(* ---------------------------------------------------------------- end lists: the frame of a notify *)
+From Morfuse Require Import C07.ProofsLib.
+
+(* the end-list entries of script objects are the same in s and s' *)
+Definition same_obj_ends (s s' : sh) : Prop :=
+  forall o m, look (etab s') (LO o, m) = look (etab s) (LO o, m).
+
+Lemma soe_refl s : same_obj_ends s s.
+Proof. intros o m. reflexivity. Qed.
+Lemma soe_trans a b c : same_obj_ends a b -> same_obj_ends b c -> same_obj_ends a c.
+Proof. intros H1 H2 o m. now rewrite H2, H1. Qed.
+Lemma soe_same a b b' : same_obj_ends a b -> etab b' = etab b -> same_obj_ends a b'.
+Proof. intros H E o m. rewrite E. apply H. Qed.
+Lemma soe_upd a b w v : same_obj_ends a b -> same_obj_ends a (upd b w v).
+Proof. intro H. now apply (soe_same a b). Qed.
+Lemma soe_set_cur a b c : same_obj_ends a b -> same_obj_ends a (set_cur b c).
+Proof. intro H. now apply (soe_same a b). Qed.
+Lemma soe_set_depth a b c : same_obj_ends a b -> same_obj_ends a (set_depth b c).
+Proof. intro H. now apply (soe_same a b). Qed.
+Lemma soe_remove_from_class a b g : same_obj_ends a b -> same_obj_ends a (remove_from_class b g).
+Proof. intro H. now apply (soe_same a b). Qed.
+Lemma soe_resolve a b w v : same_obj_ends a b -> same_obj_ends a (resolve b w v).
+Proof.
+  intro H. unfold resolve. destruct (retto (th b w)) as [c|]; [|exact H].
+  destruct (rreg (th b c)) as [| |t]; try exact H. destruct (t =? w); [|exact H]. now apply soe_upd.
+Qed.
+Lemma soe_vm_suspend a b w : same_obj_ends a b -> same_obj_ends a (vm_suspend b w).
+Proof. intro H. unfold vm_suspend. destruct (vst (th b w)); [now apply soe_upd | exact H | exact H]. Qed.
+(* the end lists of a THREAD are another listener's *)
+Lemma soe_tdel_thr a b t n : same_obj_ends a b -> same_obj_ends a (set_etab b (tdel (etab b) (LThr t, n))).
+Proof.
+  intros H o m. cbn [etab set_etab]. rewrite look_tdel_other; [apply H|]. congruence.
+Qed.
+Lemma soe_tdel_l_thr a b t : same_obj_ends a b -> same_obj_ends a (set_etab b (tdel_l (etab b) (LThr t))).
+Proof.
+  intros H o m. cbn [etab set_etab]. rewrite look_tdel_l. cbn [lid_eqb]. apply H.
+Qed.
+
+(* the tasks that run while threads are deleted: no script statement is executed by them *)
+Definition deleting (k : task) : Prop :=
+  match k with
+  | KKill _ | KCancelAll _ | KNotifyList _ | KDestroyList _ | KKillList _ | KStartTiming _ _ | KStop _ => True
+  | KDtor (LThr _) => True
+  | KUnreg (LThr _) NE => True
+  | KWakeList _ NE => True
+  | KStoppedWaitFor _ NE => True
+  | _ => False
+  end.
+
+Section EndFrame.
+  Context {T : Type}.
+  Variable P : prims T.
+
+  Definition Se (s : sh) (r : option (T * sh)) : Prop :=
+    match r with None => True | Some (_, s') => same_obj_ends s s' end.
+
+  Ltac soe_solve :=
+    repeat first
+      [ assumption | apply soe_refl | apply soe_vm_suspend | apply soe_resolve | apply soe_upd
+      | apply soe_set_cur | apply soe_set_depth | apply soe_remove_from_class
+      | apply soe_tdel_thr | apply soe_tdel_l_thr ].
+
+  Ltac se_step IH :=
+    match goal with
+    | |- Se _ None => exact I
+    | |- Se _ (Some (_, if ?c then _ else _)) => destruct c
+    | |- Se _ (Some (_, match ?v with _ => _ end)) => destruct v
+    | |- Se _ (Some (_, _)) => cbn [Se]; soe_solve
+    | |- Se _ (go P _ _ _ (match ?v with _ => _ end)) => destruct v
+    | |- Se _ (match go P _ _ _ (match ?v with _ => _ end) with _ => _ end) => destruct v
+    | |- Se ?s0 (go P ?f ?k ?x ?e) =>
+        let Ha := fresh "Ha" in let Hb := fresh "Hb" in
+        assert (Ha : same_obj_ends s0 e) by soe_solve;
+        pose proof (IH k x e I) as Hb;
+        destruct (go P f k x e) as [[? ?]|]; [cbn [Se] in *; exact (soe_trans _ _ _ Ha Hb) | exact I]
+    | |- Se ?s0 (match go P ?f ?k ?x ?e with _ => _ end) =>
+        let Ha := fresh "Ha" in let Hb := fresh "Hb" in
+        assert (Ha : same_obj_ends s0 e) by soe_solve;
+        pose proof (IH k x e I) as Hb;
+        destruct (go P f k x e) as [[? ?]|]; [cbn [Se] in Hb; pose proof (soe_trans _ _ _ Ha Hb); clear Ha Hb | exact I]
+    | |- Se _ (let '(_, _) := ?e in _) => destruct e as [? ?]
+    | |- Se _ (match (match ?v with _ => _ end) with _ => _ end) => destruct v
+    | |- Se _ (match (if ?c then _ else _) with _ => _ end) => destruct c
+    | |- Se _ (if ?c then _ else _) => destruct c
+    | |- Se _ (match ?v with _ => _ end) => destruct v
+    end.
+
+  (* deleting threads (with everything it entails: cancelled waits, deleted callees, released
+     waitthread callers put on the timer) never touches the end list of a script object *)
+  Lemma Se_go : forall f k x s, deleting k -> Se s (go P f k x s).
+  Proof.
+    induction f as [|f IH]; intros k x s Hk; [exact I|].
+    destruct k as [t|w|l|l|l|l|l n|l n|w n|w d|w|w|w|w|w i|src n w|src ns w|w v| |w];
+      cbn [deleting] in Hk; try contradiction.
+    - cbn [go]. repeat se_step IH.
+    - cbn [go]. repeat se_step IH.
+    - cbn [go]. repeat se_step IH.
+    - destruct l as [o|t]; [contradiction|]. cbn [go]. repeat se_step IH.
+    - cbn [go]. repeat se_step IH.
+    - cbn [go]. repeat se_step IH.
+    - destruct l as [o|t]; [contradiction|]. destruct n; [|contradiction]. cbn [go]. repeat se_step IH.
+    - destruct n; [|contradiction]. cbn [go]. repeat se_step IH.
+    - destruct n; [|contradiction]. cbn [go]. repeat se_step IH.
+    - cbn [go]. repeat se_step IH.
+    - cbn [go]. repeat se_step IH.
+  Qed.
+
+  (* `l notify n` (Listener::Unregister(name)), first half.  The end list of (l, n) is taken out
+     and every thread on it is destroyed; when that is done the end lists of every OTHER name of
+     l, and of every other object, are what they were, and (l, n) has none: a thread that
+     registered `endon` under another name is still registered, to die by its own name. *)
+  Theorem notify_destroys_its_end_list_and_keeps_the_others f o n x s r :
+    WF s -> (forall w, In (LThr w) (look (etab s) (LO o, n)) -> w < ntid s) ->
+    go P (S f) (KUnreg (LO o) n) x s = Some r ->
+    exists x2 s2,
+      go P f (KKillList (rev (look (etab s) (LO o, n)))) x (set_etab s (tdel (etab s) (LO o, n))) = Some (x2, s2) /\
+      (forall w, In (LThr w) (look (etab s) (LO o, n)) -> alive (th s2 w) = false) /\
+      look (etab s2) (LO o, n) = [] /\
+      (forall o' m, (o', m) <> (o, n) -> look (etab s2) (LO o', m) = look (etab s) (LO o', m)) /\
+      (let '(x3, ws) := p_detach P (LO o) n x2 in go P f (KWakeList ws n) x3 s2) = Some r.
+  Proof.
+    intros Hw Hb H. cbn [go] in H.
+    set (s1 := set_etab s (tdel (etab s) (LO o, n))) in *.
+    destruct (go P f (KKillList (rev (look (etab s) (LO o, n)))) x s1) as [[x2 s2]|] eqn:E; [|discriminate].
+    exists x2, s2. split; [reflexivity|].
+    assert (Hw1 : WF s1) by exact Hw.
+    destruct (endon_loop_destroys_every_thread P _ _ _ _ _ _ Hw1 E) as (_ & _ & D).
+    { intros w Hi. rewrite <- in_rev in Hi. now apply Hb. }
+    pose proof (Se_go f (KKillList (rev (look (etab s) (LO o, n)))) x s1 I) as Hs. rewrite E in Hs. cbn [Se] in Hs.
+    split; [intros w Hi; apply D; now rewrite <- in_rev|].
+    split; [rewrite Hs; unfold s1; cbn [etab set_etab]; apply look_tdel_same|].
+    split; [|exact H].
+    intros o' m Hne. rewrite Hs. unfold s1. cbn [etab set_etab]. apply look_tdel_other. congruence.
+  Qed.
+End EndFrame.
 
 Lemma WF_init : WF sh_init.
 Proof. intros t H. unfold th, sh_init in H. cbn [thr] in H. rewrite get_empty in H. discriminate. Qed.
